@@ -224,6 +224,11 @@ def run_property(pid, tier):
         specs = specs(seed)
     if cfg.get('seeded_extra'):
         specs = list(specs) + list(cfg['seeded_extra'](seed, tier))
+    # maintenance aid (never set by the registered commands): VERIF_SPEC_FILTER=<regex> runs only the specs whose label
+    # matches, into a scratch area, e.g. to re-run the side-B parts of the thorough tier after a corpus change
+    flt = os.environ.get('VERIF_SPEC_FILTER')
+    if flt:
+        specs = [sp for sp in specs if re.search(flt, str(sp.get('label', '')))]
     wd = workdir(pid)
     for f in glob.glob(os.path.join(wd, 'run_*.json')):
         os.remove(f)
